@@ -30,6 +30,7 @@ func init() {
 			{Name: fmt.Sprintf("surveyor-hist-D%d", d), Mode: "hist", Reset: kit.ResetGlobals, Body: func() { hist(d) },
 				NeedCounters: []string{"response-delivered", "stale-discarded", "foreign-to-other-ctx", "expired-protostate", "canceled-by-new-survey", "broadcast-complete", "late-response-discarded", "survey-time-set-during-survey", "survey-under-changed-time"}},
 			{Name: "surveyor-sched-expiry-vs-response", Mode: "sched", Bound: b, Reset: kit.ResetGlobals, Cfg: vsched.Config{EarlyTimers: true}, Body: schedExpiry},
+			{Name: "surveyor-sched-newsurvey-vs-expiry-of-the-old", Mode: "sched", Bound: b, Reset: kit.ResetGlobals, Cfg: vsched.Config{EarlyTimers: true}, Body: schedNewVsExpiry},
 			{Name: "surveyor-sched-newsurvey-vs-response", Mode: "sched", Bound: b, Reset: kit.ResetGlobals, Body: schedNewSurvey},
 			{Name: fmt.Sprintf("surveyor-unlimited-survey-time-hist-D%d", d-1), Mode: "hist", Reset: kit.ResetGlobals, Body: func() { survTime = 0; defer func() { survTime = time.Second }(); hist(d - 1) },
 				NeedCounters: []string{"canceled-by-new-survey", "stale-discarded"}},
@@ -466,6 +467,50 @@ func schedNewSurvey() {
 		kit.Failf("sched-recv2", "Recv on the second survey: done=%v %s / %q, want \"new-response\"", r2.Done(), kit.ErrName(r2.Err), r2.Val)
 	}
 	kit.Observe("%s", kit.ErrName(rc.Err))
+}
+
+// schedNewVsExpiry: a new survey is started at the very moment the previous one expires (the
+// expiry of the old survey and the Send run in every order and interleaving).  Afterwards the new
+// survey is the current one: it runs for the full survey time and a response to it is delivered.
+func schedNewVsExpiry() {
+	w := setup()
+	m := w.ctxs[kit.ChooseFree(2)]
+	w.doSurvey(m)
+	kit.Sleep(survTime - time.Nanosecond)
+	kit.Quiesce()
+	t2 := kit.Now()
+	sc := kit.Start("Send2", func() (interface{}, error) { return nil, m.send([]byte("second")) })
+	kit.Sleep(time.Nanosecond)
+	kit.Quiesce()
+	if !sc.Done() || sc.Err != nil {
+		kit.Failf("sched-send2", "second survey: done=%v %s", sc.Done(), kit.ErrName(sc.Err))
+	}
+	wire := w.newWire()
+	if len(wire[0]) != 1 || len(wire[1]) != 1 {
+		kit.Failf("broadcast-incomplete", "second survey was sent %d/%d times", len(wire[0]), len(wire[1]))
+	}
+	// (timers may land early in this scenario - virtual time then jumps to their due time - so every
+	// expectation below is tied to the clock: the second survey is current until t2 + survey time)
+	rc := kit.Start("Recv", func() (interface{}, error) { b, err := m.recvCall(); return string(b), err })
+	kit.Quiesce()
+	if rc.Done() {
+		if kit.Now() < t2+survTime {
+			kit.Failf("new-survey-lost", "%s: a new survey was started as the previous one expired; Recv on it returned %s / %q only %v into the new survey", m.name, kit.ErrName(rc.Err), rc.Val, kit.Now()-t2)
+		}
+		kit.Observe("%s expired", m.name)
+		return
+	}
+	if kit.Now() >= t2+survTime/2 {
+		kit.Observe("%s late", m.name)
+		return
+	}
+	b2 := append([]byte{}, wire[0][0].Data[:4]...)
+	w.pipes[1].Deliver(append(b2, "new-response"...))
+	kit.Quiesce()
+	if kit.Now() < t2+survTime && (!rc.Done() || rc.Err != nil || rc.Val.(string) != "new-response") {
+		kit.Failf("new-survey-lost", "%s: a new survey was started as the previous one expired; %v into it a response to it arrived: Recv done=%v %s %q", m.name, kit.Now()-t2, rc.Done(), kit.ErrName(rc.Err), rc.Val)
+	}
+	kit.Observe("%s ok", m.name)
 }
 
 // slowRespondent: one respondent is slow (takes what it is given only later) while 2-4 surveys
